@@ -4,6 +4,8 @@ mod c15;
 mod c18;
 mod c35;
 mod actions;
+mod c20;
+mod c33;
 mod gtchk;
 mod oraclechk;
 mod world;
@@ -35,6 +37,7 @@ fn main() {
         "C16" => cfgkeys::run_c16(&cli),
         "C17" => cfgkeys::run_c17(&cli),
         "C18" => c18::run(&cli),
+        "C20" => c20::run(&cli),
         "C22" | "C23" => actions::run(&cli),
         "C24" => oraclechk::run_c24(&cli),
         "C25" => oraclechk::run_c25(&cli),
@@ -42,6 +45,7 @@ fn main() {
         "C30" => gtchk::run_c30(&cli),
         "C31" => gtchk::run_c31(&cli),
         "C32" => gtchk::run_c32(&cli),
+        "C33" => c33::run(&cli),
         "C35" => c35::run(&cli),
         "C36" => tlworld::run_c36(&cli),
         other => {
